@@ -78,7 +78,7 @@ class C17Check:
         # ---------------- swarm / workload (drawn first so that it shrinks last)
         n_jobs = ch.int(1, 3, "n_jobs")
         preempt_k = ch.choose([0, 0, 4, 12], "preempt_k")
-        shut_kind = ch.choose(["nowait", "none", "wait", "registry", "callback", "nowait+wait"], "shut_kind")
+        shut_kind = ch.choose(["nowait", "none", "wait", "registry", "callback", "nowait+wait", "wait||nowait"], "shut_kind")
         shut_delay = ch.choose([0.0, 0.0005, 0.2, 2.0, 50.0], "shut_delay")
         late_submit = ch.chance(0.5, "late_submit")
         jobs = []
@@ -106,7 +106,7 @@ class C17Check:
         glitch_n = ch.int(1, 3, "psutil_glitch_n")
         glitch_site = ch.choose(["children", "ctor"], "psutil_glitch_site")
         # a hang without a time limit is only a fair workload if somebody will cancel it
-        forced_shutdown = shut_kind in ("nowait", "registry", "callback", "nowait+wait")
+        forced_shutdown = shut_kind in ("nowait", "registry", "callback", "nowait+wait", "wait||nowait")
         for jb in jobs:
             if jb["dur"] == INF and jb["timeout"] is None and not forced_shutdown:
                 jb["timeout"] = 10.0
@@ -165,6 +165,15 @@ class C17Check:
                 if st["shutdown_returned_at"] is None:
                     st["shutdown_returned_at"] = sim.now
                 sim.emit("shutdown-returned", kind=kind)
+
+            def do_wait_shutdown():
+                # a waiting shutdown promises nothing about running solvers, so its return is not the reference instant
+                sim.emit("shutdown-call", kind="wait(concurrent)")
+                try:
+                    executor.shutdown(wait=True)
+                except Exception as e:  # noqa: BLE001
+                    sim.emit("shutdown-raised", kind="wait(concurrent)", exc=type(e).__name__)
+                sim.emit("shutdown-returned", kind="wait(concurrent)")
 
             def job_client(j):
                 jb = jobs[j]
@@ -235,6 +244,14 @@ class C17Check:
                 elif shut_kind == "nowait+wait":
                     do_shutdown("nowait")
                     do_shutdown("wait")
+                elif shut_kind == "wait||nowait":
+                    # one client is blocked in shutdown(wait=True) when another one asks for a forced shutdown
+                    w = shims.SimThread(target=lambda: do_wait_shutdown(), name="client-waiter")
+                    w._kind = "client"
+                    w.start()
+                    sim.sleep(ch.choose([0.0005, 0.3, 5.0], "shut_gap"), "client.delay")
+                    do_shutdown("nowait")
+                    w.join()
                 elif shut_kind == "callback":
                     # the callback does it; make sure it happens at all
                     sim.block("client.wait-cb", lambda: st["shutdown_returned_at"] is not None
